@@ -348,8 +348,10 @@ func (w *world) change(c dchange) schema.Change {
 // ---- quote-aware tokenizer: identifier chains of one statement
 
 type chain struct {
-	parts []string
-	prev  [3]string // the three words before the chain (upper-cased), nearest last
+	parts  []string
+	prev   [3]string // the three words before the chain (upper-cased), nearest last
+	end    int       // lexChains: byte offset after the chain
+	unterm bool      // lexChains: the last identifier of the chain has no closing quote
 }
 
 // chains extracts every quoted identifier chain (a.b.c) outside string literals, and
